@@ -200,13 +200,24 @@ def check(run):
         else:
             runs.append([i, run.rng.randrange(len(OPTS))])     # quick: every case once, option set drawn by the seed
     # thorough builds run under -race: keep every special-family build, sample the rest down to a bounded number
-    CAP = 14000
+    CAP = 12000
     if thorough and len(runs) > CAP:
         keep = [r for r in runs if r[0] in special]
         rest = [r for r in runs if r[0] not in special]
+        if len(keep) > CAP // 2:
+            # the special families alone are large in thorough: every special case once with the default option set,
+            # the further option sets of the special cases sampled
+            first = [r for r in keep if r[1] == 0]
+            more = [r for r in keep if r[1] != 0]
+            run.rng.shuffle(more)
+            if len(first) > CAP // 2:
+                run.rng.shuffle(first)
+                first = first[: CAP // 2]
+            keep = first + more[: max(0, CAP // 2 - len(first))]
         run.rng.shuffle(rest)
+        total = len(runs)
         runs = keep + rest[: max(0, CAP - len(keep))]
-        run.cov["stages"].append({"stage": "replay-sample", "kept": len(runs), "of": len(keep) + len(rest)})
+        run.cov["stages"].append({"stage": "replay-sample", "kept": len(runs), "of": total})
     out = os.path.join(run.scratch, "sort_events.ndjson")
     inp = os.path.join(run.scratch, "sort_in.json")
     write_json(inp, {"cases": cases, "opts": OPTS, "runs": runs, "out": out})
